@@ -324,6 +324,10 @@ func libraryPanicSite(stack []byte) (string, bool) {
 		switch {
 		case strings.HasPrefix(fn, "runtime.") || strings.HasPrefix(fn, "runtime/"):
 			continue
+		case strings.Contains(fn, "props.(*AltComp)."):
+			// compiler-generated wrapper of a method promoted into a harness type, entered with the nil receiver the
+			// library was handed as a list entry: the caller is who dereferenced it
+			continue
 		case strings.HasPrefix(fn, "verif/") || strings.HasPrefix(fn, "main."):
 			return "", false
 		case strings.HasPrefix(fn, "github.com/veraison/psatoken/verifrt"):
